@@ -11,7 +11,7 @@ CONSTANTS Kind, Atoms, MaxLen, Cfgs, Junk, EmitOn,
           Starts,     \* start offsets (number of junk bytes before the text)
           FlagSet,    \* POptFlags values
           PCaps       \* capacities of the caller supplied array (uriparams / urihdrs; {0} otherwise: unused)
-VARIABLES wire, vis, cont, obj, verdict, cfg, prev, hist
+VARIABLES wire, vis, cont, obj, verdict, cfg, prev, hist, na
 
 K_New(c)  == CASE Kind = "tokparam" -> TokParam_New(c) [] Kind = "uriparams" -> URIParams_New(c)
                [] Kind = "urihdrs" -> URIHdrs_New(c)   [] Kind = "skipquoted" -> SkipQ_New(c)
@@ -23,7 +23,7 @@ K_Obs(s)  == CASE Kind = "tokparam" -> TokParam_Obs(s) [] Kind = "uriparams" -> 
 K_Reset(s) == CASE Kind = "tokparam" -> TokParam_Reset(s) [] Kind = "uriparams" -> URIParams_Reset(s)
                [] Kind = "urihdrs" -> URIHdrs_Reset(s)   [] Kind = "skipquoted" -> SkipQ_Reset(s)
 
-INSTANCE Stream WITH P_New <- K_New, P_Call <- K_Call, P_Obs <- K_Obs, P_Reset <- K_Reset
+INSTANCE Stream WITH MaxAtoms <- 99, P_New <- K_New, P_Call <- K_Call, P_Obs <- K_Obs, P_Reset <- K_Reset
 
 \* the configurations of a run: the record is printed as the `cfg` of every oracle record and must be
 \* understood by the Go side (harness/kinds.go Cfg)
